@@ -110,3 +110,9 @@
 (assert (forall ((t RT)) (! (=> (= (X.reflect.Type.Name.r0 t) str.empty) (bvslt (T.height (X.reflect.Type.Key.r0 t)) (T.height t))) :pattern ((X.reflect.Type.Key.r0 t)))))
 (assert (forall ((t RT)) (! (bvsle (T.height (R.unpackPtrType t)) (T.height t)) :pattern ((R.unpackPtrType t)))))
 ;@end
+; the type at the end of a chain of pointer types (the type itself when it is no pointer type): defined along Elem
+(declare-fun T.base (RT) RT)
+;@when T.base
+(assert (forall ((t RT)) (! (=> (not (= (X.reflect.Type.Kind.r0 t) K.Ptr)) (= (T.base t) t)) :pattern ((T.base t)))))
+(assert (forall ((t RT)) (! (=> (= (X.reflect.Type.Kind.r0 t) K.Ptr) (= (T.base t) (T.base (X.reflect.Type.Elem.r0 t)))) :pattern ((X.reflect.Type.Elem.r0 t)))))
+;@end
